@@ -195,20 +195,16 @@ impl Node {
 
         // Step 2. Let selectedcontent be the first selectedcontent element descendant of select in tree order
         // if any such element exists; otherwise return null.
-        // FIXME: This does not visit the nodes in tree order
-        let mut remaining = VecDeque::default();
-        remaining.extend(self.children.borrow().iter().cloned());
+        let mut remaining: Vec<Rc<Self>> = self.children.borrow().iter().rev().cloned().collect();
         let mut selectedcontent = None;
-        while let Some(node) = remaining.pop_front() {
-            remaining.extend(node.children.borrow().iter().cloned());
-
-            let NodeData::Element { name, .. } = &self.data else {
-                continue;
-            };
-            if name.local_name() == &local_name!("selectedcontent") {
-                selectedcontent = Some(node);
-                break;
+        while let Some(node) = remaining.pop() {
+            if let NodeData::Element { name, .. } = &node.data {
+                if name.local_name() == &local_name!("selectedcontent") {
+                    selectedcontent = Some(node);
+                    break;
+                }
             }
+            remaining.extend(node.children.borrow().iter().rev().cloned());
         }
         let selectedcontent = selectedcontent?;
 
@@ -235,6 +231,12 @@ impl Node {
         }
 
         // Step 3. Replace all with documentFragment within selectedcontent.
+        for old_child in selectedcontent.children.borrow().iter() {
+            old_child.parent.set(None);
+        }
+        for child_clone in &document_fragment {
+            child_clone.parent.set(Some(Rc::downgrade(&selectedcontent)));
+        }
         *selectedcontent.children.borrow_mut() = document_fragment;
     }
 
@@ -243,17 +245,36 @@ impl Node {
     /// This function will run into infinite recursion when the DOM tree contains cycles and it makes
     /// no attempts to guard against that.
     fn clone_with_subtree(&self) -> Rc<Self> {
-        let children = self
-            .children
-            .borrow()
-            .iter()
-            .map(|child| child.clone_with_subtree())
-            .collect();
-        Rc::new(Self {
-            parent: Cell::new(self.parent()),
-            data: self.data.clone(),
-            children: RefCell::new(children),
-        })
+        let data = match &self.data {
+            NodeData::Element {
+                name,
+                attrs,
+                template_contents,
+                mathml_annotation_xml_integration_point,
+            } => NodeData::Element {
+                name: name.clone(),
+                attrs: attrs.clone(),
+                template_contents: RefCell::new(
+                    template_contents
+                        .borrow()
+                        .as_ref()
+                        .map(|contents| contents.clone_with_subtree()),
+                ),
+                mathml_annotation_xml_integration_point: *mathml_annotation_xml_integration_point,
+            },
+            other => other.clone(),
+        };
+        let clone = Rc::new(Self {
+            parent: Cell::new(None),
+            data,
+            children: RefCell::new(Vec::new()),
+        });
+        for child in self.children.borrow().iter() {
+            let child_clone = child.clone_with_subtree();
+            child_clone.parent.set(Some(Rc::downgrade(&clone)));
+            clone.children.borrow_mut().push(child_clone);
+        }
+        clone
     }
 }
 
